@@ -249,3 +249,11 @@ package crypto
 //@   loop 1 invariant [ascending] forall i int, j int :: old(tracelen(cb)) <= i && i < j && j < tracelen(cb) ==> traceat(cb, 1, i) < traceat(cb, 1, j)
 //@   loop 1 invariant [alltrue] forall i int :: old(tracelen(cb)) <= i && i < tracelen(cb) ==> traceat(cb, 2, i) == 1
 //@   modifies trace(cb)
+
+// Decoding a compressed BLS12-381 point is done by the external kilic/bls12-381 library:
+// assumed to return an error (never panic) on any input.
+//@ func RestoreBLS12AggregateSignature
+//@   trusted external library (kilic/bls12-381 FromCompressed); assumed total
+//@   ensures err == nil ==> s != nil
+//@   ensures err != nil ==> s == nil
+//@   modifies alloc
